@@ -129,7 +129,10 @@ def fourier_shift_expand(
     array: ArrayLike, positions: ArrayLike, expand_dim: bool = True
 ) -> ArrayLike:
     """Fourier-shift array by flat array of positions."""
-    phase = fourier_translation_operator(positions, array.shape, expand_dim, dtype=array.dtype)
+    # the ramp must stay complex: casting it to a real array dtype would keep only its cosine part
+    phase = fourier_translation_operator(
+        positions, array.shape, expand_dim, dtype=array.dtype if af.is_complex(array) else None
+    )
     fourier_array = af.fft2(array)
     shifted_fourier_array = fourier_array * phase
     shifted_array = af.ifft2(shifted_fourier_array)
